@@ -147,6 +147,26 @@ def run(prog, tier):
     obs.append(struct_ob("refit-order", f"{prog.cls('AcquisitionFunction').module.name}.AcquisitionFunction[incumbent]", not inc_bad and inc_n > 0,
                          "mu_max must be the maximum of the regressor's data wherever it is set: " + "; ".join(inc_bad[:2]), ACQ,
                          prog.cls("AcquisitionFunction").node.lineno, tier="F"))
+    # the far-tail arm exists because the density underflows there: no logarithm is taken of a product that has the normal density (or an
+    # exponential) as a factor - log(H * pdf(Z) * sig) is -inf below Z of about -38.6 where log(H) + ln_pdf(Z) + log(sig) is finite
+    from .. import lints as _lints
+    dens_methods = set()
+    for ci_ in [prog.cls("AcquisitionFunction")] + prog.subclasses("AcquisitionFunction"):
+        for mname_, fn_ in ci_.methods.items():
+            rt_ = Resolver(fn_, prog, ci_.module, ci_).return_terms()
+            if len(rt_) == 1 and any(isinstance(x, ast.Call) and U(x.func) == "exp" for x in ast.walk(rt_[0])) \
+                    and not any(isinstance(x, ast.Call) and U(x.func) in ("log", "erf", "erfcx") for x in ast.walk(rt_[0])):
+                dens_methods.add(mname_)
+    under_ = []
+    for ci_ in [prog.cls("AcquisitionFunction")] + prog.subclasses("AcquisitionFunction"):
+        for mname_, fn_ in ci_.methods.items():
+            for st_ in ast.walk(fn_):
+                if isinstance(st_, (ast.Assign, ast.Return, ast.AugAssign)) and getattr(st_, "value", None) is not None:
+                    for h_ in _lints.log_of_vanishing_product(st_.value, (), ("exp", "exp2") + tuple(dens_methods)):
+                        under_.append(f"{ci_.name}.{mname_} line {st_.lineno}: `{U(h_)[:70]}`")
+    obs.append(struct_ob("value-form", f"{prog.cls('AcquisitionFunction').module.name}[no-log-of-underflowing-product]", not under_,
+                         "the logarithm of a product with a density factor: " + "; ".join(under_[:2]) + " - the factor underflows to 0 in the far "
+                         "tail and the objective is inf where its sibling form is finite", ACQ, prog.cls("AcquisitionFunction").node.lineno, tier="F"))
     # every acquisition value is a function of the regressor's prediction AT the query point: self.gp(..) and
     # self.gp.spatial_derivatives(..) receive the method's own point argument, untouched
     arg_bad, arg_n = [], 0
